@@ -323,6 +323,12 @@ class Cli(C.Stream):
          "cli": "at_each_test", "env": None, "variant": 0, "texts": "plain", "backends": ["json", "xml"],
          "project_info": [["target", "default"]], "title": "Campaign 1"},
     ] + [
+        # two `lcc.Thread` workers of one test carrying the SAME name, the first ending first, logs (saves) before the second ends
+        {"spec": _spec_one_suite([{"name": "t0", "mode": "run",
+                                   "acts": [["threads", ["a0"], ["b0"], True, ["worker", "worker"]], ["log", "info", "after"]]},
+                                  {"name": "t1", "acts": [["log", "info", "m"]], "mode": "run"}]),
+         "cli": "at_each_log", "env": None, "variant": 0, "texts": "plain", "backends": ["json", "xml"]},
+    ] + [
         # a second run into the same explicitly given report directory (option / variable), which holds the first run's report; no
         # save before the end of the run: whatever a reader finds there meanwhile must be this run's — and the default location
         {"spec": _spec_one_suite([{"name": "t0", "acts": [["log", "info", "m"], ["check", False]], "mode": "run"},
@@ -384,7 +390,7 @@ class Cli(C.Stream):
             return []           # accepted although not documented (e.g. a trailing line feed): nothing is promised
         # (for the wall-clock strategies check_sessions looks at the final save and at the loadability / prefix facts only)
         return c10.check_sessions(obs["events"], obs["handled"], raised, obs["sessions"], obs["status_after"], obs["final_report"],
-                                  lambda load: obs["nfs"][load["nf"]])
+                                  lambda load: obs["nfs"][load["nf"]], real=True)
 
     def request(self, case, obs):
         from props import c10
@@ -462,6 +468,8 @@ class Cli(C.Stream):
                 f.append("report-dir:REPORT-FILE-VISIBLE-WHEN-THE-RUN-STARTS")
         if case.get("project_info"):
             f.append("project-build_report_info")
+        from props import c10 as _c10
+        f += _c10.thread_name_features(case["spec"])
         if case["spec"].get("has_info"):
             f.append("tests-call-add_report_info")
             pnames = {n for n, _ in case.get("project_info") or []}
